@@ -1,5 +1,8 @@
 import QRV.Props.C01
 import QRV.Props.C14
+import QRV.Lemmas.DecQR
+import QRV.Lemmas.DecMicro
+import QRV.Lemmas.DecRMQR
 /-
 C06 — decoders are total: any bitmap yields a result or an error, never a panic.
 
@@ -18,31 +21,35 @@ structure WellFormed (img : Image) : Prop where
   size : (img.pix.size : Int) = img.stride * img.dy
   bytes : ∀ b ∈ img.pix.toList, b < 256
 
+theorem WellFormed.wf {img : Image} (h : WellFormed img) : Lemmas.Dec.WF img :=
+  ⟨h.dx, h.dy, h.stride, h.size, h.bytes⟩
+
 /-- QR: a bitmap that is not square of side 21, 25, …, 177 is answered with an error before any
 table is indexed -/
 theorem qr_wrong_size_error (img : Image)
     (h : img.dx ≠ img.dy ∨ img.dx < 21 ∨ img.dx > 177 ∨ (img.dx - 17).tmod 4 ≠ 0) :
     (Model.QR.decodeBitmap img).isErr = true := by
-  sorry
+  obtain ⟨m, e⟩ := Lemmas.Dec.qr_wrong_size img h
+  rw [e]; rfl
 
 /-- QR: DecodeBitmap never panics and always terminates, for every bitmap whatsoever (any size, any
 origin, any contents) -/
 theorem qr_decode_total (img : Image) (hw : WellFormed img) :
-    (Model.QR.decodeBitmap img).isPanic = false := by
-  sorry
+    (Model.QR.decodeBitmap img).isPanic = false :=
+  (Lemmas.Dec.qr_decodeBitmap_sat img hw.wf).not_panic
 
 /-- Micro QR: a bitmap whose size is not that of the version named by its format information is
 answered with an error -/
 theorem micro_decode_total_on_wrong_size (img : Image) (hw : WellFormed img)
     (h : ¬ (img.dx = img.dy ∧ (img.dx = 11 ∨ img.dx = 13 ∨ img.dx = 15 ∨ img.dx = 17))) :
-    (Model.Micro.decodeBitmap img).isErr = true := by
-  sorry
+    (Model.Micro.decodeBitmap img).isErr = true :=
+  Lemmas.Dec.micro_wrong_size img hw.wf h
 
 /-- rMQR: a bitmap whose size is none of the 32 rMQR sizes is answered with an error -/
 theorem rmqr_decode_total_on_wrong_size (img : Image) (hw : WellFormed img)
     (h : ∀ v, v < 32 → ¬ (img.dx = (Spec.Patterns.RMQR.width v : Nat) ∧ img.dy = (Spec.Patterns.RMQR.height v : Nat))) :
-    (Model.RMQR.decodeBitmap img).isErr = true := by
-  sorry
+    (Model.RMQR.decodeBitmap img).isErr = true :=
+  Lemmas.Dec.rmqr_wrong_size img hw.wf h
 
 /-- the Reed-Solomon step never panics and terminates (imported from C14) -/
 theorem rs_step_total (data : List Nat) (hd : C14.Bytes data) (n : Nat) : (RS.decode data n).isPanic = false :=
